@@ -29,14 +29,19 @@ def plan(tier):
             "read_twice", "buf_path", "iter_path", "iter_partial_take", "iter_buffer_cap_512",
             "line_longer_than_bufreader", "sched_1byte", "sched_line_aligned", "sched_full",
             "trunc_in_header", "trunc_in_region", "trunc_in_terminator", "trunc_after_region",
-            "fetch_beyond_4GiB", "line_number_beyond_2_32", "big_control_below_4GiB",
+            "adjacent_windows_line_aligned_seam", "adjacent_seam_from_tlc_behaviour", "adjacent_seam_at_8k_boundary",
+            "adjacent_seam_between_cr_and_lf", "bufreader_seam_on_line_end_then_adjacent",
+            "empty_interval_into_dirty_buffer", "fetch_beyond_4GiB", "line_number_beyond_2_32", "big_control_below_4GiB",
             "virtual_generator_small_dump"],
         # counted as well, but not required (they depend on what the code answers, a mutant may silence them):
         # several_fills_in_one_read, truncation_error_seen, iter_error_item_seen
         "rule": "one run = one IndexedReader object over one (possibly cut) file behind a scripted reader; one event = "
                 "one public call (open, fetch*, read, read_iter) with the seeks and read() sizes it caused: every "
                 "completed read of the TLC state graph of the machine (len <= 3/4, widths 1..2/3, Cap 3: file, cut, "
-                "fetch, path, exact fill sizes) replayed into the real reader; all files "
+                "fetch, path, exact fill sizes) replayed into the real reader, each completed buffer read followed by the "
+                "ADJACENT window (next start = previous stop; the model marks the behaviours that leave the source in "
+                "front of / inside the line terminator); full-buffer reads whose 8 KiB seam is swept over every byte "
+                "around a line end, then the adjacent window; all files "
                 "with len <= 4 (quick) / 7 (thorough), width 1..3 / 1..4, LF/CRLF, one or two records x every cut "
                 "offset x every interval x both read paths x 7 fill schedules; random files (<= 4 records, len <= "
                 "3000, widths {1,2,7,60,61,511,512,513,1000,len,len+k}) with boundary intervals, refusals, fetch/read "
